@@ -190,7 +190,13 @@ PlainClass(cp) ==
   ELSE "other"
 
 \* what a scalar with spelling cp written in `style` must load as: its type tag
-ExpectedType(cp, style) == IF style # "plain" THEN "str" ELSE PlainClass(cp)
+\* styles: plain, single, double, literal (`|-`), folded (`>-`), and the explicit core-schema tags
+\* `!!str x`, `!!int x`, `!!float x` (the tag decides, where the spelling is a number of that kind)
+ExpectedType(cp, style) ==
+  CASE style = "plain" -> PlainClass(cp)
+    [] style = "tag-int" -> IF JsonInt(cp) THEN "int" ELSE "other"
+    [] style = "tag-float" -> IF JsonInt(cp) \/ JsonFloat(cp) THEN "flt" ELSE "other"
+    [] OTHER -> "str"
 
 ---------------------------------------------------------------------------
 (* Part 3: CloudFormation short forms (rules/mod.rs:29-86)                  *)
